@@ -339,6 +339,11 @@ class MessageManager(interfaces.TokenInterface, interfaces.MessageManager):
         if retransmission_counter < message.transport_tuning.MAX_RETRANSMIT:
             self.log.info("Retransmission, Message ID: %d.", message.mid)
             self._send_via_transport(message)
+            if message.remote not in self._backlogs:
+                # The transport reported an error for that remote right from
+                # inside the send call; dispatch_error has failed the request
+                # and dropped the remote's exchanges, so don't revive this one.
+                return
             retransmission_counter += 1
             timeout *= 2
 
